@@ -464,6 +464,46 @@ func checkC14(r *core.Run) {
 			}
 		}
 	}
+	// one helper called after a path prefix and after a query prefix of the same attribute (in both orders): the
+	// data of the query call site must be fully encoded whichever site was analysed first
+	var sharedProgs int64
+	for ci, cl := range c14Cells {
+		for _, order := range []int{0, 1} {
+			path := cl.open + cl.attr + "=\"/items/{{template \"hp\" $.P1}}\"" + cl.close
+			query := cl.open + cl.attr + "=\"/s?next={{template \"hp\" $.P0}}\"" + cl.close
+			text := `{{define "hp"}}{{.}}{{end}}` + path + " " + query
+			if order == 1 {
+				text = `{{define "hp"}}{{.}}{{end}}` + query + " " + path
+			}
+			sharedProgs++
+			p, _ := tmplx.Prepare(text)
+			if p == nil {
+				continue
+			}
+			for _, d := range cdata {
+				dd := tmplx.Data{P0: d, P1: "a"}
+				res := p.Exec(&dd)
+				atomic.AddInt64(&execs, 1)
+				if res.Kind != tmplx.OK {
+					continue
+				}
+				i := strings.Index(res.Out, "/s?next=")
+				if i < 0 {
+					continue
+				}
+				rest := res.Out[i+len("/s?next="):]
+				if j := strings.IndexByte(rest, '"'); j >= 0 {
+					rest = rest[:j]
+				}
+				rest = stdhtml.UnescapeString(rest)
+				if !cl.trurl && rfc3986.LowerEscapes(rest) != rfc3986.Encode(d) {
+					r.Witness("query-not-fully-encoded", "helper-shared-by-path-and-query "+c14Cells[ci].name, text+"\x00"+d,
+						fmt.Sprintf("program %s with data %s: after the query prefix the data must be fully percent-encoded (%q), got %q (output %s)", core.Q(text), core.Q(d), rfc3986.Encode(d), rest, core.Q(res.Out)), nil)
+				}
+			}
+		}
+	}
+	r.Set("shared_helper_programs", sharedProgs)
 	r.Set("prefix_after_action_programs", afterAction)
 	r.Set("typed_after_prefix_programs", typedProgs)
 	r.Set("loop_prefix_programs", loopProgs)
